@@ -193,6 +193,11 @@ def gen():
         a_forced_own = len(re.findall(r"options\.version = options\.version \+ VERSION", fi.group(1)))
         calls_import = len(re.findall(r"Self::import_with\(", fi.group(1)))
         a_import = len(re.findall(r"\+ VERSION", im.group(1)))
+        # every `+ VERSION` in forced_import_with must be of the one shape the model understands
+        if len(re.findall(r"\+\s*VERSION", fi.group(1))) != a_forced_own:
+            raise GenError(f"{what}: forced_import_with adds VERSION in a form the translator does not understand")
+        if len(re.findall(r"\+\s*VERSION", im.group(1))) != len(re.findall(r"options\.version = options\.version \+ VERSION", im.group(1))):
+            raise GenError(f"{what}: import_with adds VERSION in a form the translator does not understand")
         errs = re.findall(r"Err\(Error::(\w+)", fi.group(1))
         return a_import, a_forced_own, calls_import, sorted(set(errs))
     for tag, rel in (("RAW", V + "variants/raw/inner/read_write/mod.rs"), ("COMP", V + "variants/compressed/inner/read_write/mod.rs")):
